@@ -55,6 +55,19 @@ int main() {
     Rectangle::setXBorder(0); Rectangle::setYBorder(0);
     for (size_t k = 0; k < bs.size(); ++k) delete bs[k];
   }
+  // a block needing a split that stands BEHIND another one that needs a split (whose split merges an earlier block away): both get refined
+  for (int third = 0; third < 2; ++third) {
+    const double Q[7][4] = {{0, 30, -11.4, -1.4}, {16, 29, 9, 19}, {116, 129, 9, 19}, {0, 30, 0, 10}, {1, 14, 7, 17}, {100, 130, 0, 10}, {101, 114, 5, 15}};
+    Rectangles qs; for (int i = 0; i < 7; ++i) qs.push_back(new Rectangle(Q[i][0], Q[i][1], Q[i][2], Q[i][3]));
+    std::set<unsigned> qf; qf.insert(2); qf.insert(6);
+    removeoverlaps(qs, qf, third != 0);
+    double avg = 0; for (int i = 0; i < 7; ++i) avg += (Q[i][1] - Q[i][0] + Q[i][3] - Q[i][2]) / 14.0;
+    for (int i = 2; i < 7; i += 4) {
+      double dx = qs[i]->getCentreX() - (Q[i][0] + Q[i][1]) / 2, dy = qs[i]->getCentreY() - (Q[i][2] + Q[i][3]) / 2;
+      if (std::fabs(dx) > 0.01 * avg || std::fabs(dy) > 0.01 * avg) { printf("seven-rectangle scene: fixed rectangle %d moved by (%g,%g) (thirdPass=%d); 1%% of the average size is %g\n", i, dx, dy, third, 0.01 * avg); bad++; }
+    }
+    for (size_t k = 0; k < qs.size(); ++k) delete qs[k];
+  }
   // two fixed rectangles that the first (satisfy) phase merges into one block with the free ones: the refinement must separate the block
   // again and its result must be what comes back (fixed rectangles move by less than 1% of the average size)
   for (int third = 0; third < 2; ++third) {
@@ -288,6 +301,32 @@ def jobs(tier):
             j.replay = replay_c09
             j.note = (j.note + " " if j.note else "") + "[job of the C01 check, run here as well: removeoverlaps calls vpsc::Solver::solve()]"
             js.append(j)
+    # ---- Solver::refine, one pass of its outer loop: the pass reports "nothing left to split" only after it has examined EVERY block
+    #      (the refined optimum is what keeps fixed rectangles in place; a pass that starts somewhere in the middle can miss an over-merged block)
+    SVC = "libvpsc/solve_VPSC.cpp"
+    rf = slice_func(SVC, r'^void Solver::refine\(\)', "Solver::refine")
+    _, rf_pass = fragment_loop(rf, r'while\(!solved&&maxtries>0\)', "Solver::refine [one pass of the outer loop]")
+    ltol = slice_lines(SVC, r'^static const double LAGRANGIAN_TOLERANCE=-1e-4;', 1, "LAGRANGIAN_TOLERANCE")
+    rf_cxx = ("#include <verif_base.h>\n"
+              'extern "C" { unsigned long w_bs_size(void); void *w_bs_at(unsigned long i); void *w_findMinLM(void *b); void w_pass_note(int what, void *b); }\n'
+              "namespace vpsc {\n" + ltol.text + "\n"
+              "// stand-ins: every call the pass makes on the block set / a block forwards to the harness\n"
+              "class Constraint { public: char _pad[24]; double lm; };   // only `lm` is read here (its offset is the stand-in's own: the harness goes through accessors)\n"
+              "class Block { public: void setUpInConstraints() { w_pass_note(1, (void *)this); } void setUpOutConstraints() { w_pass_note(2, (void *)this); }\n"
+              "    Constraint *findMinLM() { return (Constraint *)w_findMinLM((void *)this); } };\n"
+              "class Blocks { public: size_t size() const { return w_bs_size(); } Block *at(size_t i) const { return (Block *)w_bs_at(i); }\n"
+              "    void split(Block *b, Block *&l, Block *&r, Constraint *c) { w_pass_note(3, (void *)b); } void cleanup() { w_pass_note(4, (void *)0); } };\n"
+              "class Solver { public: Blocks *bs; int verif_refine_pass(); };\n"
+              "int Solver::verif_refine_pass()\n{\n" +
+              "".join("    " + d + "\n" for d in scalar_local_decls(rf, r'while\(!solved&&maxtries>0\)')) +
+              rf_pass.text + "\n    return solved ? 1 : 0;\n}\n}\n"
+              "static vpsc::Blocks verif_bs; static vpsc::Solver verif_solver; static vpsc::Constraint verif_c[3];\n"
+              'extern "C" int w_refine_pass(void) { verif_solver.bs = &verif_bs; return verif_solver.verif_refine_pass(); }\n'
+              'extern "C" void *verif_constraint(unsigned k, double lm) { verif_c[k].lm = lm; return (void *)&verif_c[k]; }\n')
+    js.append(Job("refine_pass_examines_every_block", "B", spec, "h_refine_pass", cxx=rf_cxx, defines=["JOB_refine_pass"], slices=[rf, rf_pass, ltol], unwind=6, replay=replay_c09,
+                  flags=["--sat-solver", "cadical"], backend="sat:cadical",
+                  bound="block sets of 0 to 3 blocks (loops unwound 6 times with unwinding assertions); every outcome of findMinLM per block; every value of the function's other locals",
+                  domain="every such pass", expect=[r'h_refine_pass\.assertion']))
     return js
 
 
@@ -305,6 +344,7 @@ ASSUMPTIONS = [
     "real-valued inputs near a rounding edge are outside the size/separation claims (observation: two 1-ulp-wide rectangles touching at 1e6 get a 2-ulp overlapX)",
     "fixed rectangles: only the link 'generateX/YConstraints sets EVERY variable's desired position to its rectangle's current centre, in every call' is under contract "
     "(loop shells for any number of rectangles + projected loop bodies); that weight 10000 then keeps a fixed rectangle within 1% is solver optimality (C02) and not decided",
+    "refine_pass_examines_every_block is a BOUNDED stand-in (up to 3 blocks; Blocks/Block behind stand-ins): one pass of Solver::refine's outer loop ends 'solved' only after every block was examined; that the optimum then keeps fixed rectangles within 1% is C02 and not decided",
     "NOT decided (residue, the headline): the scan line emits a constraint or chain for EVERY overlapping pair; acyclicity of the generated sets; hence 'no two rectangles overlap'",
 ]
 EXPLANATION = ("Contracts on the real vpsc::Rectangle inline members and on fragments of generateX/YConstraints and removeoverlaps: moving a rectangle keeps width, height and the other "
